@@ -27,6 +27,7 @@ import bz2
 import hashlib
 import os
 import pty
+import shutil
 import subprocess
 import sys
 import threading
@@ -47,6 +48,28 @@ ck.require_theorems(['LbzVerif.Props.C19.' + n for n in (
     'usr2_after_output', 'header_case')])
 exe = ck.build_lbzip2(asan=False)
 drv = ck.driver()
+
+
+def private_driver(drv):
+    """Other work packages may relink the shared driver while this campaign
+    runs: take a copy now and make sure it knows this package's commands."""
+    for attempt in range(4):
+        cp = os.path.join(ck.tmp, 'lbzdrv-' + str(attempt))
+        try:
+            shutil.copy2(drv, cp)
+            rc, rep, _ = batch([cp], ['sniff 425a6839 1 1'], timeout=60)
+            if rc == 0 and rep == ['decompress 9']:
+                return cp
+        except (OSError, subprocess.SubprocessError):
+            pass
+        time.sleep(5)
+        if 'LBZDRV' not in os.environ:
+            ck._lake(['build', 'lbzdrv'])
+    ck.broken.append('driver: lbzdrv does not answer ' + 'sniff 425a6839 1 1')
+    return drv
+
+
+drv = private_driver(drv)
 TIMEOUT = 30
 rng = ck.rng
 GRANUL = 65536
@@ -187,6 +210,8 @@ for pre in (b'B', b'BZ', b'BZh', b'BZh0', b'BZh:', b'BZH1', b'bZh1', b'AZh9',
     inputs.append(('pre:' + pre.hex(), pre))
     for extra in (1, 4, GRANUL - len(pre), GRANUL + 4 - len(pre),
                   rng.randrange(5, 3000)):
+        if ck.quick and extra > 60000 and pre not in (b'B', b'BZ', b'BZh', b'BZh0', b'BZh:'):
+            continue
         if extra > 0:
             inputs.append(('pre:%s+%d' % (pre.hex(), extra), pre + rbytes(extra)))
 # a compressed file with a damaged magic is copied, not decompressed
